@@ -136,6 +136,32 @@ def rule_i1(chk: Check) -> None:
     if not okdf:
         chk.finding("I1", fi.key, "default-policy", "the default policy is not returned exactly when no allow list is configured (or is negated)", fi.loc())
     chk.ob("I1", "default policy decides only without an allow list", okdf)
+    # "is an allow list configured" must be asked of the WHOLE configured list:
+    # the attribute the constructor fills from config.allow_list (or the
+    # configured list itself) - not a subset derived per request
+    ci = fi.cls
+    full = set()
+    init = ci.methods.get("__init__") if ci is not None else None
+    if init is not None:
+        for l in [x for x in walk(init.node) if isinstance(x, ast.For) and "allow_list" in norm(x.iter)]:
+            for c in calls(ast.Module(body=l.body, type_ignores=[])):
+                mc = method_call(c)
+                if mc and mc[1] in ("append", "add") and (dotted(mc[0]) or "").startswith("self."):
+                    full.add(dotted(mc[0]))
+    full |= {"self.config.allow_list"}
+    d = Defs(g)
+    okw = bool(tests)
+    for t in tests:
+        for _dn, le in origins(d, t, t.ast):
+            src = dotted(le) if not isinstance(le, _Sel) else None
+            if src not in full:
+                okw = False
+                chk.finding(
+                    "I1", fi.key, f"allow-list-presence:{norm(le)[:50] if not isinstance(le, _Sel) else repr(le)}",
+                    f"whether an allow list is configured is decided on `{norm(le) if not isinstance(le, _Sel) else repr(le)}`, a value derived per request, not on the whole configured allow list ({sorted(full)}): when the derived subset is empty (e.g. no entry of the peer's address family) the request falls through to the default policy although an allow list exists and does not contain the address",
+                    t.where(),
+                )
+    chk.ob("I1", "allow-list presence is tested on the whole configured list", okw)
 
 
 def rule_i2(chk: Check) -> None:
